@@ -21,8 +21,9 @@ def transit_cases(cands):
         i = c["inputs"]
         if not i.get("ra") or any(x is None for x in i["ra"]):
             continue
-        astros = [[0.0, 0.0, float(i["ra"][k]), 1.0, float(i.get("sid") or 0.0) + (k - 1) * 0.9856] for k in range(3)]
-        cases.append({"api": "k_get_hours", "lat": 0.0, "lon": float(i.get("lon") or 0.0), "elev": 0.0, "astros": astros,
+        dec = i.get("dec") or [0.0, 0.0, 0.0]
+        astros = [[0.0, float(dec[k] or 0.0), float(i["ra"][k]), 1.0, float(i.get("sid") or 0.0) + (k - 1) * 0.9856] for k in range(3)]
+        cases.append({"api": "k_get_hours", "lat": float(i.get("lat") or 0.0), "lon": float(i.get("lon") or 0.0), "elev": 0.0, "astros": astros,
                       "params": {"method": "Isna", "ext": "None", "round": "None"}})
     return cases
 
@@ -100,7 +101,7 @@ def run(rep):
         "exact-real semantics for f64 in the transit kernel (tolerance 10 s = 0.0417 deg vs f64 rounding ~1e-13 deg)",
         "chrono year()/month()/day() model (trusted base)"]
     obls = [(jd.jd_formula, (1583, 9999)), (jd.jd_step, "add"), (jd.jd_step, "sub"), (transit.ra_deltas, None), (transit.dhuhr_transit, None),
-            (wiring.get_hours_wiring, None)]
+            (wiring.get_hours_wiring, None), (wiring.astro_day_wiring, None)]
     obls += [(policy.policy_clauses, (p, ["dhuhr"], "free")) for p in ("None", "AngleBased", "NearestLatitudeFajrIshaInvalid", "SeventhOfNightFajrIshaAlways",
                                                                           "HalfOfNightFajrIshaAlways", "MinutesFromMaghribFajrIshaInvalid")]
     results = base.run_obligations(rep, obls)
@@ -108,6 +109,10 @@ def run(rep):
     tr = [x for x in results if not x["name"].startswith("JulianDay")]
     if any(x["cands"] for x in tr):
         confirm(rep, tr)
+    from . import ephsweep
+    ephsweep.sweep(rep, {"dhuhr"})
+    from . import policyprop as _pp
+    _pp.purity_native(rep)
     rep.samples = [{"obligation": o["name"], "status": o["status"], "paths": o.get("paths")} for o in rep.obligations[:6]]
 
 
